@@ -40,6 +40,8 @@ const TOKEN_POOL: &[&str] = &[
 	"]", ";", ":", ",", ".", "..", "=", "==", "!=", "<", ">", "<=", ">=", "<<", ">>", "+", "-",
 	"*", "/", "%", "&", "|", "^", "!", "->", "|:", "x", "y", "main", "return", "0", "1", "255",
 	"0xFF", "1u8", "true", "'a'", "\"s\"", "_", "print!", "|x|",
+	// the other builtins
+	"dbg!", "panic!", "abort!", "format!", "file!", "line!", "eprint!", "include_bytes!",
 ];
 
 /// token-level edits on a source text (spans from the reference lexer)
